@@ -94,7 +94,9 @@ Reset == /\ IsA("reset") /\ Adv
 TNext == Reset \/ FsmInit \/ FsmStep \/ Plan \/ OpenEv \/ SendEv \/ AfterEv \/ End
 TInit == Init /\ l = 1 /\ path = <<>> /\ role1 = "none" /\ knows = TRUE /\ dev = {} /\ refl = {} /\ TLCSet(42, 1)
 TSpec == TInit /\ [][TNext]_tvars
-Progress == TLCSet(42, IF l > TLCGet(42) THEN l ELSE TLCGet(42))
+Progress == /\ TLCSet(42, IF l > TLCGet(42) THEN l ELSE TLCGet(42))
+            \* EARLY=1 (lenient validation): one behaviour that explains the whole trace is enough, stop there
+            /\ (IF l > N /\ IOEnv.EARLY = "1" THEN PrintT("ACCEPTED_EARLY") /\ TLCSet("exit", TRUE) ELSE TRUE)
 Accepted == IF TLCGet(42) > N THEN TRUE
             ELSE /\ PrintT(<<"REJECTED_AT", TLCGet(42), Rec[TLCGet(42)]>>)
                  /\ FALSE
